@@ -1081,6 +1081,8 @@ func Main(wide bool) {
 				fmt.Println(RunRx(l)) // executed on the real receive loop
 			} else if len(w) > 0 && w[0] == "dr" {
 				fmt.Println(RunOwn(l)) // executed on a real Conn: own requests next to user requests, late Write returns
+			} else if len(w) > 0 && w[0] == "ds" {
+				fmt.Println(RunSched(l)) // executed on two real Conns: schedule points inside exec / releaseStream
 			} else if len(w) > 0 && w[0] == "jr" {
 				fmt.Println(RunJourney(l)) // executed on a real Conn with real callers over a scripted transport
 			} else if len(w) > 0 && (w[0] == "cf" || w[0] == "cfk") {
@@ -1147,6 +1149,19 @@ func Main(wide bool) {
 		for i, a := range RunOwnBatch(lines, 40) {
 			out.Case("reset 128", "ok", "reset", false)
 			out.Case(lines[i], a, classes[i], true)
+			nown++
+		}
+		// schedule points inside exec's exits and releaseStream, calls waiting for the write slot, close while calls are
+		// inside exec, two connections (sched.go)
+		rs := vh.NewRng(vh.EnvSeed() ^ 0x73636864)
+		ns := 600
+		if tier == "thorough" {
+			ns = 20000
+		}
+		for i := 0; i < ns && !ownHung; i++ {
+			line, cls := GenSched(rs)
+			out.Case("reset 128", "ok", "reset", false)
+			out.Case(line, RunSched(line), cls, true)
 			nown++
 		}
 		if ownHung {
